@@ -61,13 +61,23 @@ type Contract struct {
 	Asserts  []*Clause
 	Assigns  []string
 	HasAssigns bool
+	GhostVars []*GhostVar
+	Sets      []*Clause // ghost assignments executed after a call: Clause.At callee, Label = variable
+	MayFail  []string // source-line substrings: an implicit panic there is a path (recovered by a deferred call), not an obligation
 	Panics   string
 	Pure     bool
+	Recovers bool // calls recover(): as a deferred call it stops a panic
 	Returns  ast.Expr // pure extern: the result is this expression of the parameters
 	Trusted  string
 	Inline   bool
 	File     string
 	Line     int
+}
+
+type GhostVar struct {
+	Name string
+	Sort string // int | bool
+	Init ast.Expr
 }
 
 type GhostField struct {
@@ -114,7 +124,7 @@ func newContractSet() *ContractSet {
 	return &ContractSet{Aliases: map[string]string{}, Funcs: map[string]*Contract{}, Ghosts: map[string]*GhostField{}, TypeInvs: map[string][]*TypeInv{}, Consts: map[string]ast.Expr{}, Defines: map[string]*Define{}, Preds: map[string]*Pred{}}
 }
 
-var keywordRe = regexp.MustCompile(`^(alias|assume|boxednonnil|pred|func|extern|interface|ghost|smt|typeinv|const|define|requires|ensures|returns|loop|assigns|panics|pure|trusted|at|inline)\b`)
+var keywordRe = regexp.MustCompile(`^(alias|assume|boxednonnil|pred|func|extern|interface|ghost|smt|typeinv|const|define|requires|ensures|returns|recovers|mayfail|ghostvar|after|loop|assigns|panics|pure|trusted|at|inline)\b`)
 
 type rawLine struct {
 	indent int
@@ -348,6 +358,36 @@ func (cs *ContractSet) loadFile(file string, pkgPrefix string) error {
 				cur.Panics = rest
 			case "pure":
 				cur.Pure = true
+			case "recovers":
+				cur.Recovers = true
+			case "ghostvar":
+				// ghostvar name int = expr
+				m := regexp.MustCompile(`^(\w+)\s+(int|bool)\s*=\s*(.*)$`).FindStringSubmatch(rest)
+				if m == nil {
+					return fail("ghostvar name int|bool = expr")
+				}
+				e, err := cs.parseExpr(m[3])
+				if err != nil {
+					return fail("%v", err)
+				}
+				cur.GhostVars = append(cur.GhostVars, &GhostVar{Name: m[1], Sort: m[2], Init: e})
+			case "after":
+				// after <callee> set name = expr
+				m := regexp.MustCompile(`^(\S+)\s+set\s+(\w+)\s*=\s*(.*)$`).FindStringSubmatch(rest)
+				if m == nil {
+					return fail("after <callee> set name = expr")
+				}
+				e, err := cs.parseExpr(m[3])
+				if err != nil {
+					return fail("%v", err)
+				}
+				cur.Sets = append(cur.Sets, &Clause{Kind: "set", At: cs.expand(m[1]), Label: m[2], Expr: e, Src: m[3], File: l.file, Line: l.line})
+			case "mayfail":
+				m := regexp.MustCompile(`^line\s+"([^"]*)"`).FindStringSubmatch(rest)
+				if m == nil {
+					return fail("mayfail line \"text\"")
+				}
+				cur.MayFail = append(cur.MayFail, m[1])
 			case "returns":
 				e, err := cs.parseExpr(rest)
 				if err != nil {
